@@ -75,11 +75,42 @@ def run(ctx, F):
                 ctx.ok("F5-pseudo-placeholder-table", key, {"outcome": got})
             else:
                 ctx.fail("F5-pseudo-placeholder-table", key, f"Pseudo::no_placeholder yields `{got}` when its selector argument reduces to {a} and :not={flag}; selector semantics require `{w}`")
+    # every selector argument goes through the elimination (no fast path around it)
+    from lib import mir as M, cfgutil
+    prog = F.lib
+    pb = prog.one("<css::selectors::pseudo::Pseudo>::no_placeholder")
+    sel_edge = None
+    for bi, blk in enumerate(pb.blocks):
+        t = blk["term"]
+        if t["k"] == "switch" and (t.get("of_ty") or "").endswith("pseudo::Arg"):
+            names = {nm: tg for _, tg, nm in t["targets"]}
+            sel_edge = names.get("Selector")
+            break
+    elim = [bi for bi, t in pb.calls() if (M.callee_name(t) or "").endswith("SelectorSet>::no_placeholder")]
+    if sel_edge is None or not elim:
+        ctx.anchor_lost("Pseudo::no_placeholder selector-argument arm", f"switch edge {sel_edge}, elimination calls {elim}")
+    else:
+        p = cfgutil.paths_to_return_avoiding(pb, sel_edge, set(elim), through_error_exits=True)
+        if p:
+            ctx.fail("F3-elimination-unconditional", "Pseudo::no_placeholder|Arg::Selector", "a pseudo with a selector argument can be kept without its argument going through SelectorSet::no_placeholder: a placeholder nested deeper in the argument survives", where=pb.where(sel_edge), path=[f"bb{x}" for x in p[:10]])
+        else:
+            ctx.ok("F3-elimination-unconditional", "Pseudo::no_placeholder|Arg::Selector", {"elimination_calls": elim})
     # ---------------------------------------------------------------- (b)
     c = tree.one_method("css::selectors::compound::CompoundSelector", "no_placeholder")
     first = c["body"]["stmts"][0] if c["body"]["stmts"] else {}
     fx = A.strip(first.get("x") or {})
-    if fx.get("e") == "if" and A.show(fx["cond"]).replace(" ", "") == "!self.placeholders.is_empty()" and "Opt::None" in A.show(fx["then"]["stmts"][0].get("x")):
+    def has_ph(cond):
+        c = A.show(cond).replace(" ", "")
+        if c == "!self.placeholders.is_empty()":
+            return True
+        x = A.strip(cond)
+        if x.get("e") == "mcall" and A.show(x["recv"]).strip() == "self" and not x["args"]:
+            hs = tree.method("css::selectors::compound::CompoundSelector", x["m"])
+            if len(hs) == 1:
+                body = A.strip(hs[0]["body"])
+                return A.show(body).replace(" ", "").strip("{}") == "!self.placeholders.is_empty()"
+        return False
+    if fx.get("e") == "if" and has_ph(fx["cond"]) and "Opt::None" in A.show(fx["then"]["stmts"][0].get("x")):
         ctx.ok("F5-compound-placeholder", "a compound with a placeholder reduces to None", None)
     else:
         ctx.fail("F5-compound-placeholder", "a compound with a placeholder reduces to None", "CompoundSelector::no_placeholder does not start with `if !self.placeholders.is_empty() { return Opt::None; }`")
